@@ -17,6 +17,7 @@ Inductive op :=
 | OpEntropy (site : Z) (rg : bool)     (* flag = result is NaN *)
 | OpVariable | OpInformative | OpAvgAlleles   (* avg alleles: num * 2^den is the float, flag = NaN *)
 | OpCountDiff | OpGapsUnique | OpMutUnique
+| OpGapsProfile | OpMutProfile      (* with a count profile built from c_rows; l1 uniques, l2 new, c_kv (x00, both) *)
 | OpMutVsRef (refidx seqidx : Z)
 | OpCompat (a b : Z).
 
@@ -75,6 +76,12 @@ Definition model_ok (c : case) : bool :=
       forallb (fun ab => same_set (fst ab) (map (fun x => (fst x, Z.of_nat (snd x))) (snd ab))) (combine (c_diffs c) per)
   | OpGapsUnique => negb (c_err c) && Zlist_eqb (c_l1 c) (zl (num_gaps_unique rs))
   | OpMutUnique => negb (c_err c) && Zlist_eqb (c_l1 c) (zl (num_mutations_unique al rs))
+  | OpGapsProfile =>
+      let '(u, nw, bo) := num_gaps_profile rs (unrows (c_rows c)) in
+      negb (c_err c) && Zlist_eqb (c_l1 c) (zl u) && Zlist_eqb (c_l2 c) (zl nw) && Zlist_eqb (map snd (c_kv c)) (zl bo)
+  | OpMutProfile =>
+      let '(u, nw, bo) := num_mutations_profile al rs (unrows (c_rows c)) in
+      negb (c_err c) && Zlist_eqb (c_l1 c) (zl u) && Zlist_eqb (c_l2 c) (zl nw) && Zlist_eqb (map snd (c_kv c)) (zl bo)
   | OpMutVsRef ri si =>
       match nth_error rs (Z.to_nat ri), nth_error rs (Z.to_nat si) with
       | Some r, Some s =>
@@ -195,6 +202,31 @@ Definition spec_check (c : case) : option bool :=
             Zlist_eqb (c_l1 c)
               (map (fun j => Z.of_nat (cnt (fun col => beqb (nth j col x00) x2d && Nat.eqb (cnt (beqb x2d) col) 1) (cols_of rs)))
                    (seq 0 (length rs))))
+  | OpGapsProfile =>
+      let prof := unrows (c_rows c) in
+      if negb (rectangularb prof && Nat.eqb (width prof) (width rs)) then None else
+      let pcols := cols_of prof in
+      let cols := combine (cols_of rs) pcols in
+      let absent (cp : list byte * list byte) := Nat.eqb (cnt (beqb x2d) (snd cp)) 0 in
+      Some (negb (c_err c) &&
+            Zlist_eqb (c_l1 c) (map (fun j => Z.of_nat (cnt (fun cp => beqb (nth j (fst cp) x00) x2d && Nat.eqb (cnt (beqb x2d) (fst cp)) 1) cols)) (seq 0 (length rs))) &&
+            Zlist_eqb (c_l2 c) (map (fun j => Z.of_nat (cnt (fun cp => beqb (nth j (fst cp) x00) x2d && absent cp) cols)) (seq 0 (length rs))) &&
+            Zlist_eqb (map snd (c_kv c))
+                      (map (fun j => Z.of_nat (cnt (fun cp => beqb (nth j (fst cp) x00) x2d && Nat.eqb (cnt (beqb x2d) (fst cp)) 1 && absent cp) cols)) (seq 0 (length rs))))
+  | OpMutProfile =>
+      let prof := unrows (c_rows c) in
+      if negb (Z.eqb al 0 || Z.eqb al 1) then None else
+      if negb (rectangularb prof && Nat.eqb (width prof) (width rs)) then None else
+      let cols := combine (cols_of rs) (cols_of prof) in
+      let counted b := negb (beqb b x2d) && negb (beqb b (wild al)) in
+      Some (negb (c_err c) &&
+            Zlist_eqb (c_l1 c) (map (fun j => Z.of_nat (cnt (fun cp => let b := nth j (fst cp) x00 in
+                                       Nat.eqb (cnt (beqb b) (fst cp)) 1 && counted b) cols)) (seq 0 (length rs))) &&
+            Zlist_eqb (c_l2 c) (map (fun j => Z.of_nat (cnt (fun cp => let b := nth j (fst cp) x00 in
+                                       counted b && Nat.eqb (cnt (beqb b) (snd cp)) 0) cols)) (seq 0 (length rs))) &&
+            Zlist_eqb (map snd (c_kv c))
+                      (map (fun j => Z.of_nat (cnt (fun cp => let b := nth j (fst cp) x00 in
+                                       Nat.eqb (cnt (beqb b) (fst cp)) 1 && counted b && Nat.eqb (cnt (beqb b) (snd cp)) 0) cols)) (seq 0 (length rs))))
   | OpMutUnique =>
       if negb (Z.eqb al 0 || Z.eqb al 1) then None else
       Some (negb (c_err c) &&
